@@ -85,7 +85,10 @@ def k18_annotate(ctx, pid: str):
         mods = ACollection("modules", lambda: _entity(mod_cls, "m"))
         prod = ARec(True, [Piece("PRODUCT", ZERO, Aff.sym("len:product"))], Term("product"))
         I.prod = prod
-        return (AObj(mgr, {"modules": mods, "vector": V, "id": ID, "name": NAME}), prod), {}
+        from .kernels2 import build_manager
+        obj = build_manager(I, mgr, V, mods, id_=ID, name=NAME)
+        obj.attrs["modules"] = mods
+        return (obj, prod), {}
 
     def post(I, o):
         name = fi.qualname
@@ -113,7 +116,7 @@ def k18_annotate(ctx, pid: str):
         out.append(("K18.comment-modules", name, okm, "the comment must name every supplied module (a join over all of self.modules): %r" % (txt,)))
         return out
 
-    emit(ctx, run_paths(ctx, fi, make_args, [], post=post), fi.where())
+    emit(ctx, run_paths(ctx, fi, make_args, [], hooks=_entity_hooks(p), post=post), fi.where())
     ctx.report.floor("K18.topology", 1)
 
 
